@@ -131,7 +131,9 @@ def ContinuousConditional(cond, true_value, false_value, sigma=1.0):
         )
 
     # Create Heaviside
-    H = 1 / (1 + sympy.exp((cond.args[0] - cond.args[1]) / sigma))
+    # evaluate=False: sympy would split exp(c + u) into exp(c)*exp(u), and for a small sigma
+    # one factor underflows to 0 while the other overflows (0*inf = nan)
+    H = 1 / (1 + sympy.exp((cond.args[0] - cond.args[1]) / sigma, evaluate=False))
 
     # Decides which should be weighted with 1 and 0
     if ">" in cond.rel_op:
